@@ -262,13 +262,25 @@ fn check_direct(spec: &LmSpec, sig: &str, l: &mut Local) {
 pub fn equivalent_exact_pub(a: &LmSpec, b: &LmSpec) -> bool {
     equivalent_exact(a, b)
 }
+/// equivalence over the declared variables only (auxiliaries, whose names start with `$`, may differ
+/// in number and meaning between two compilations of the same source model)
+pub fn equivalent_exact_declared(a: &LmSpec, b: &LmSpec) -> bool {
+    equivalent_exact_on(a, b, true)
+}
 
 fn equivalent_exact(a: &LmSpec, b: &LmSpec) -> bool {
+    equivalent_exact_on(a, b, false)
+}
+
+fn equivalent_exact_on(a: &LmSpec, b: &LmSpec, declared_only: bool) -> bool {
     use crate::exact::solve_milp;
     // b may lack unused variables of a; compare over b's variables embedded in a's names
     let names: Vec<String> = a.vars.iter().map(|v| v.0.clone()).collect();
     let mut dirs: Vec<(Vec<f64>, Sense)> = vec![(a.obj.clone(), a.sense)];
     for i in 0..names.len() {
+        if declared_only && names[i].starts_with('$') {
+            continue;
+        }
         for s in [Sense::Min, Sense::Max] {
             let mut o = vec![0.0; names.len()];
             o[i] = 1.0;
